@@ -673,19 +673,41 @@ func (s *Storm) Run(clients, perClient int, faults bool) {
 		if okc {
 			nw := 1 + s.r.Intn(3)
 			wwg := &sync.WaitGroup{}
+			// every other time the rules are back BEFORE an instance becomes free: a request that was waiting
+			// all the while is then served like any other (it gets its own values back)
+			reinstallFirst := s.r.Intn(2) == 0
 			for i := 0; i < nw; i++ {
 				wwg.Add(1)
 				rr := rand.New(rand.NewSource(s.r.Int63()))
 				c := s.genCall(rr, true)
 				go func() {
 					defer wwg.Done()
-					// not "healthy" for the identity oracle: the pool may be cleared when it gets in
-					s.fire(rr, c, false, true, 0, nil)
+					// otherwise not "healthy" for the identity oracle: the pool may be cleared when it gets in
+					d := s.fire(rr, c, false, !reinstallFirst, 0, nil)
+					if reinstallFirst {
+						// served, or - if it only arrived after the clear - sent away at once with nothing (nil error, empty
+						// result): anything else means a request that was waiting was given up
+						_, ran := d.res["q1"]
+						sentAway := d.err == nil && d.pan == nil && len(d.res) <= 1 && d.resp.Out1 == 0
+						if !(ran && d.resp.Out1 == d.id) && !sentAway {
+							s.find("cap", "waiter-not-served", fmt.Sprintf("pool.%s: request %d was waiting for an instance while the rules were cleared and installed again; when instances became free it was not served (err=%v, result %v)", c.Method, d.id, d.err, d.res), dump())
+						}
+					}
 				}()
 			}
 			time.Sleep(time.Duration(500+s.r.Intn(1500)) * time.Microsecond)
 			s.pool.ClearPoolRules()
 			k.Count("clears_while_requests_wait", 1)
+			if reinstallFirst {
+				var uerr error
+				trace.CompileLocked(func() error { uerr = s.pool.UpdatePooledRules(stormRules); return nil })
+				if uerr != nil {
+					s.gate.Release()
+					k.Inconclusive("re-installing the storm rules failed (C16's subject): " + uerr.Error())
+					return
+				}
+				k.Count("rules_back_before_an_instance_was_free", 1)
+			}
 			s.gate.Release()
 			if !waitDone(wgc, progressBound) || !waitDone(wwg, progressBound) {
 				s.find("cap", "waiters-stuck", "requests did not complete after the rules were cleared while they waited", dump())
